@@ -92,7 +92,32 @@ def run(plan):
         dev.energy = bytes.fromhex(NEW_ENERGY)
         dev.humidity = bytes.fromhex(NEW_HUM)
         old_caps = dev.caps_pages
-        spec = {"base": "honest", "edit": [["corrupt"] + list(corrupt)], "place": "alone"}
+        spec = {"base": "honest", "edit": [["corrupt"] + list(corrupt)], "place": plan.get("place", "alone")}
+        if s.version != 3:
+            spec["place"] = "alone"          # several frames in one exchange need one TCP segment (V3)
+        if kind == "propwrite":
+            # a corrupted *state* frame arrives in the exchange of a property write (apply's second exchange)
+            spec = {"base": "state", "edit": [["corrupt"] + list(corrupt)],
+                    "place": "before_good" if s.version == 3 else "alone"}
+            ac.ieco = not ac.ieco
+            ac.target_temperature = 23.0
+            op = {"op": "apply", "net": [{}, {"app": spec}]}
+            dev.bad_frames = []
+            o = await s.do(op)
+            if o.kind != "ok":
+                w.probe("operation_raised_(C14_domain)")
+                return
+            if not dev.bad_frames:
+                raise RuntimeError("no corrupted frame was produced")
+            if codec.response_valid_by_stated_rule(dev.bad_frames[0]):
+                stats["exempt"] += 1
+                return
+            stats["judged"] += 1
+            bad = compare_view(ac, dev.state, dev.state_len)
+            if bad:
+                res.fail("rejected state frame changed state: " + bad[0][0],
+                         f"corrupted state frame delivered during a property write: {bad}")
+            return
         if kind == "caps":
             dev.caps_pages = [(NEW_CAPS, None)]
             op = {"op": "caps", "net": [{"app": spec}]}
@@ -118,6 +143,24 @@ def run(plan):
         def group_changed(g):
             return [(a, snap0[a], snap1[a]) for a in GROUPS[g] if snap0[a] != snap1[a]]
 
+        if spec["place"] == "bad_bad_good":
+            # the valid frame that follows the two rejected ones in the same exchange must still be used
+            if not all(invalid[:1]):
+                stats["exempt"] += 1
+                return
+            stats["judged"] += 1
+            if kind == "caps":
+                return
+            if not ac.online:
+                res.fail("valid frame following rejected ones in the same exchange was not used (offline)", f"{kind}")
+                return
+            bad = compare_view(ac, dev.state, dev.state_len)
+            if bad:
+                res.fail("valid state frame following rejected ones was not applied: " + bad[0][0], repr(bad))
+                return
+            if kind in ("energy", "humidity", "props") and not group_changed(kind):
+                res.fail(f"valid {kind} frame following rejected ones in the same exchange was not applied", "")
+            return
         if kind == "all":
             if not all(invalid):
                 stats["exempt"] += 1
@@ -175,17 +218,20 @@ def cfg(version):
 def space(tier):
     sp = Space(ID)
     nvals = 255 if tier == "thorough" else 24
-    for kind in ("state", "energy", "humidity", "props", "caps", "all"):
+    for kind in ("state", "energy", "humidity", "props", "caps", "all", "propwrite"):
         n = FRAME_LEN.get(kind, FRAME_LEN["state"])
-        nofix_pos = list(range(1, n)) if kind != "all" else list(range(1, 33))
-        fix_pos = list(range(10, n - 2)) if kind != "all" else list(range(10, 31))
+        nofix_pos = list(range(1, n)) if kind not in ("all",) else list(range(1, 33))
+        fix_pos = list(range(10, n - 2)) if kind not in ("all",) else list(range(10, 31))
         for label, positions, fixup in (("nofix", nofix_pos, False), ("fix", fix_pos, True)):
             def fn(j, rng, kind=kind, positions=positions, fixup=fixup):
                 pos = positions[j // nvals % len(positions)]
                 delta = (j % nvals) + 1 if nvals == 255 else rng.randrange(1, 256)
                 version = 2 + (j + j // nvals) % 2
                 return {"config": cfg(version), "kind": kind, "corrupt": [pos, delta, fixup],
-                        "caps_with_extra": rng.random() < 0.3}
+                        "caps_with_extra": rng.random() < 0.3,
+                        # several frames in one exchange: the corrupted one twice / twice and then the valid one
+                        "place": rng.choice(["alone", "alone", "twice", "bad_bad_good"]) if kind != "caps" else
+                        rng.choice(["alone", "twice"])}
             reps = 2 if tier == "thorough" else 1
             sp.add(f"{label}_{kind}", len(positions) * nvals * reps, fn, exhaustive=(nvals == 255))
     return sp
